@@ -49,6 +49,13 @@ def rename_fields(fields, resources=None, regex=True):
                     if isinstance(primary_key, str):
                         primary_key = [primary_key]
                     resource['schema']['primaryKey'] = [renames[res_name].get(k, k) for k in primary_key]
+                # ... and so do the foreign keys
+                for foreign_key in resource['schema'].get('foreignKeys') or []:
+                    fk_fields = foreign_key.get('fields')
+                    if isinstance(fk_fields, str):
+                        foreign_key['fields'] = renames[res_name].get(fk_fields, fk_fields)
+                    elif isinstance(fk_fields, list):
+                        foreign_key['fields'] = [renames[res_name].get(k, k) for k in fk_fields]
         not_matched = [
             src.pattern for src, _ in field_res
             if src.pattern not in matched
